@@ -518,14 +518,14 @@ func okMethodSound(c *Ctx, f *ssa.Function) (bool, string) {
 		v := rets[0].Results[0]
 		if bo, ok := v.(*ssa.BinOp); ok && bo.Op == token.EQL {
 			if n, isC := constInt(bo.Y); isC && n == 0 {
-				if fieldKey(bo.X) == "shell.Result.Status" {
+				if loadedField(bo.X) == "shell.Result.Status" {
 					return true, "Status == 0"
 				}
 			}
 		}
 		if call, ok := v.(*ssa.Call); ok {
 			if cf := call.Common().StaticCallee(); cf != nil && cf.Name() == "Ok" && inModule(cf) {
-				if fieldKey(call.Common().Args[0]) == "task.Result.CommandResults" {
+				if loadedField(call.Common().Args[0]) == "task.Result.CommandResults" {
 					return true, "delegates to CommandResults.Ok()"
 				}
 			}
@@ -705,4 +705,17 @@ func envProperties() []*propertySpec {
 			Assumptions: []string{"mvdan.cc/sh/v3/expand.ListEnviron: for duplicate names the last one wins (environ.go)", "godotenv.Load never overrides an ambient variable and only touches the process environment"},
 			Rules:       []func(*Ctx) *rule{ruleEN1, ruleEN2, ruleEN3, ruleEN4}},
 	}
+}
+
+// loadedField names the struct field a value is loaded from ("shell.Result.Status"), or "".
+func loadedField(v ssa.Value) string {
+	switch x := v.(type) {
+	case *ssa.UnOp:
+		if x.Op == token.MUL {
+			return fieldKey(x.X)
+		}
+	case *ssa.Field:
+		return fieldKey(x)
+	}
+	return ""
 }
